@@ -227,11 +227,14 @@ class Ctx:
                 if msg not in self.known_hits:
                     self.known_hits.append(msg)
                 return
-        if len(self.violations) < self.max_violations:
+        # separate budgets: disagreements between model and code must never crowd out the search for a
+        # concrete failing input on the code itself
+        same = [v for v in self.violations if v["concrete"] == concrete]
+        if len(same) < self.max_violations:
             self.violations.append({"what": what, "replay": replay, "key": k, "concrete": concrete})
 
     def too_many(self) -> bool:
-        return len(self.violations) >= self.max_violations
+        return len([v for v in self.violations if v["concrete"]]) >= self.max_violations
 
     # -- reporting --------------------------------------------------------
     def finish(self) -> int:
